@@ -17,6 +17,7 @@ import (
 	"github.com/blinklabs-io/gouroboros/protocol/handshake"
 	"github.com/blinklabs-io/gouroboros/protocol/keepalive"
 	"github.com/blinklabs-io/gouroboros/protocol/leiosfetch"
+	"github.com/blinklabs-io/gouroboros/protocol/leiosnotify"
 	"github.com/blinklabs-io/gouroboros/protocol/localmessagenotification"
 	"github.com/blinklabs-io/gouroboros/protocol/localmessagesubmission"
 	"github.com/blinklabs-io/gouroboros/protocol/localstatequery"
@@ -229,6 +230,15 @@ func sampleMsg(label string, typ uint8, variant int, n uint64) protocol.Message 
 			return localtxmonitor.NewMsgGetSizes()
 		case 10:
 			return localtxmonitor.NewMsgReplyGetSizes(1000, uint32(n), 3)
+		}
+	case label == "leiosnotify":
+		switch typ {
+		case 0:
+			return leiosnotify.NewMsgNotificationRequestNext()
+		case 2:
+			return leiosnotify.NewMsgBlockOffer(samplePoint(n), 1000+n)
+		case 5:
+			return leiosnotify.NewMsgDone()
 		}
 	case label == "leiosfetch":
 		switch typ {
